@@ -44,7 +44,7 @@ ASSUMPTIONS = ["user actions happen only inside directories owned by a git SCM; 
                "Bob runs inside the harness process; every suspected violation is re-run with the real `bob` script in "
                "fresh processes before it is reported"]
 TIME_BUDGET = {"quick": 240, "thorough": 1500}
-BATCH = 2
+BATCH = 16     # (Hypothesis starts every batch with the minimal example: small batches waste cases)
 
 WS = "dev/src/root/1/workspace"
 SRCBASE = "dev/src/root/1"
@@ -425,8 +425,8 @@ class Run:
         where = "after invocation %d `bob %s` (exit %d)" % (self.invocations, " ".join(argv), r.rc)
         self.log.append("bob %s -> %d" % (" ".join(argv), r.rc))
         self.labels.add("bob:%s:%s" % (variant, "ok" if r.rc == 0 else "fail"))
-        if r.rc not in (0, 1):
-            self.fail("internal-error", "%s: exit status %d is neither success nor a build error" % (where, r.rc), r)
+        if crashed(r):
+            self.fail("internal-error", "%s: Bob crashed instead of succeeding or refusing with an error" % where, r)
         after = self.scm_dirs_present()
         attic_after = self.attic_inodes()
         if variant.startswith("dev"):
@@ -474,8 +474,8 @@ class Run:
         if os.path.isdir(os.path.join(self.W, "imports")):
             shutil.copytree(os.path.join(self.W, "imports"), os.path.join(self.X, "imports"), symlinks=True)
         rX = self.bob(self.X, ["dev", "root"] + LEAN)
-        if rX.rc not in (0, 1):
-            self.fail("internal-error", "fresh checkout: exit status %d" % rX.rc, rX)
+        if crashed(rX):
+            self.fail("internal-error", "fresh checkout: Bob crashed", rX)
         if rX.rc != 0:
             self.labels.add("A:fresh-checkout-fails")
             return
@@ -547,6 +547,11 @@ class Run:
             self.sec["A"] += time.time() - t - 0   # includes the fresh checkout (also counted in bob)
 
 
+def crashed(r):
+    """a BuildError exits with the status of the failed command (1, 128, ...): only a traceback / signal is a crash"""
+    return r.rc < 0 or "An internal Exception has occured" in r.err or "Traceback (most recent call last)" in r.err
+
+
 class Excluded(Exception):
     pass
 
@@ -616,12 +621,17 @@ def round_st(draw):
 def case_st(quick):
     return st.fixed_dictionaries({
         "pre": st.lists(up_st, max_size=3),
-        "spec": st.sampled_from([1, 1, 1, 2, 2, 3]).flatmap(lambda n: st.lists(entry_st, min_size=n, max_size=n)),
+        "spec": st.tuples(st.sampled_from([1, 1, 1, 2, 2, 3]).flatmap(lambda n: st.lists(entry_st, min_size=n, max_size=n)),
+                          st.integers(0, 7)).map(lambda t: [dict(t[0][0], t="git")] + t[0][1:] if t[1] else t[0]),
         "history": st.lists(round_st(), min_size=2, max_size=3 if quick else 6).map(lambda rs: [o for r in rs for o in r]),
     })
 
 
 def check(ctx, case):
+    if ctx.out_of_time() and not ctx.in_shrink:
+        # wall-clock guard inside a batch: the case is not executed and not judged (reported in the evidence)
+        ctx.extra["cases_not_run_time_guard"] = ctx.extra.get("cases_not_run_time_guard", 0) + 1
+        return
     try:
         run_case(ctx, case)
     except Violation as v:
@@ -712,10 +722,13 @@ def _f_git_behind(sig, case, detail):
     return False
 
 
-def _f_empty_parent(sig, case, detail):
-    """structural: an SCM lived in a two-level directory P/x whose parent P was not an SCM directory, and the final
-    spec has nothing below P: the move to the attic leaves the empty directory P behind"""
-    if sig != "untouched-differs:empty-dir-left":
+def _f_unowned_parent(sig, case, detail):
+    """structural: an SCM lived in a two-level directory P/x whose parent P was not an SCM directory.  Nothing owns P:
+    (a) when the SCM moves to the attic the empty P stays behind (final spec has nothing below P), and
+    (b) an SCM that is later configured at P itself "collides with existing file" for ever."""
+    a = sig == "untouched-differs:empty-dir-left"
+    b = sig == "incremental-fails" and "collides with existing file" in detail
+    if not (a or b):
         return False
     pts = _dev_points(case)
     final = pts[-1][0]
@@ -723,7 +736,11 @@ def _f_empty_parent(sig, case, detail):
         for d in snap:
             if depth(d) == 2:
                 parent = d.split("/")[0]
-                if parent not in snap and not any(under(f, parent) for f in final):
+                if parent in snap:
+                    continue
+                if a and not any(under(f, parent) for f in final):
+                    return True
+                if b and parent in final:
                     return True
     return False
 
@@ -748,5 +765,5 @@ def _f_tar_shrunk(sig, case, detail):
 
 FINDINGS = {"C12-url-digest-change-never-converges": _f_url_digest,
             "C12-git-url-switch-to-lagging-repo-keeps-newer-commits": _f_git_behind,
-            "C12-attic-leaves-empty-parent-directory": _f_empty_parent,
+            "C12-parent-of-two-level-scm-dir-is-unowned": _f_unowned_parent,
             "C12-url-tarball-with-fewer-members-leaves-old-files": _f_tar_shrunk}
